@@ -278,8 +278,111 @@ def check_redecl(ck, F, S, f, inst, st1, st2, first, root, base_eff, R_once, R_r
              f'{inst}: master() of the first declaration is `{acc1.get("master")}`', loc=f['loc'], fn=f['id'])
 
 
+def check_tree_lookup(ck, F):
+    """The two ordered indexes a scope is looked up through (overload sets by name: the owning tree; entries by type: the
+    intrusive chain) are searched the way they are filled."""
+    import c08
+    R = ck.rule('C07.index-agrees', 'the ordered indexes of a scope (overload sets by name, entries of an overload set by type) are '
+                'searched the way they are filled: on explicit trees of 0, 1 and 3 nodes with an uninterpreted comparator, find and '
+                'insert take the same branch for the same comparison result and find reports exactly the node whose comparison was '
+                'zero -- otherwise a declared name or type is not found again and a redeclaration becomes a second master', floor=6)
+    by_name = F.rec['ipr::impl::Scope']['fields']
+    picks = []
+    for cls, what in (('ipr::impl::Scope', 'overload sets by name'), ('ipr::impl::Overload', 'entries by type')):
+        for fl in F.need_rec(cls)['fields']:
+            t = fl['t']
+            if t.startswith(('ipr::util::rb_tree::container<', 'ipr::util::rb_tree::chain<')) and t in F.rec:
+                picks.append((t, what))
+    if len(picks) < 2:
+        raise AnalysisBroken(f'the ordered indexes of Scope / Overload were not found (got {picks})')
+    for tcls, what in picks:
+        for n_nodes, problems, find0, insert0, _nd in c08.descent_check(F, tcls):
+            ck.check(R, f'{what}: {contracts.short(tcls)}/{n_nodes}-node tree', not problems[0],
+                     f'{tcls} ({what}): ' + '; '.join(problems[0]), loc=find0['loc'], fn=find0['id'])
+
+
+def check_homogeneous_lookup(ck, F, S):
+    """Looking a name up in a parameter list / enumeration / base list / handler region answers from the members entered so far."""
+    R = ck.rule('C07.homogeneous-lookup', 'looking a name up in a homogeneous scope (parameters, enumerators, bases, exception '
+                'parameter) yields the member whose name is that very name when the search of the member sequence finds one, and '
+                'nothing only after the whole sequence was searched in vain; an answer taken from anything else (a remembered '
+                'earlier answer) is accepted only if every function that enters a member resets what the shortcut reads', floor=3)
+    ops = [f for f in F.fn.values() if f['name'] == 'operator[]' and (f.get('parent') or '').startswith('ipr::impl::homogeneous_scope<')
+           and len(f['params']) == 1 and 'ipr::Name' in f['params'][0]['t']]
+    if not ops:
+        raise AnalysisBroken('no homogeneous_scope<...>::operator[](const Name&) instantiation found')
+    P0 = ('param', 0)
+
+    def has(t, pred):
+        if isinstance(t, tuple):
+            if pred(t):
+                return True
+            return any(has(x, pred) for x in t)
+        return False
+    for f in sorted(ops, key=lambda f: f['id']):
+        inst = contracts.short(f['parent']) + '::operator[]'
+        try:
+            outs = S.run(f['id'])
+        except Unsupported as e:
+            raise AnalysisBroken(f'{f["id"]}: outside the evaluator language: {e}')
+        problems = []
+        kinds = set()
+        for st, k, v in outs:
+            if k != 'return':
+                problems.append(f'may throw {v}')
+                continue
+            shown = contracts.render(v, st, {})
+            searched_in_vain = any(isinstance(c, tuple) and c and c[0] == 'noelem' and val for c, val in st.conds)
+            by_identity = [c for c, val in st.conds if val and isinstance(c, tuple) and c[0] == 'op' and c[1] == '==' and ('addr', P0) in (c[2], c[3])
+                           and has(c, lambda t: isinstance(t, tuple) and len(t) == 2 and t[0] == 'elem')]
+            if shown.startswith('some(elem(') and by_identity:
+                kinds.add('found')
+                continue
+            if shown == 'absent' and searched_in_vain:
+                kinds.add('absent')
+                continue
+            # a shortcut: which members of the scope object does it consult?
+            reads = sorted({t[2] for c, _val in st.conds for t in _subterms(c) if isinstance(t, tuple) and len(t) == 3 and t[0] == 'fld' and t[1] == ('sym', 'this')})
+            growers = [g for g in F.fns_in(f['parent']) if not g.get('const') and g.get('body') is not None and not g.get('ctor') and not g.get('dtor')
+                       and any(n.get('k') == 'call' and (n.get('callee') or {}).get('name') in ('push_back', 'emplace_back', 'emplace_front', 'push_front', 'insert')
+                               for n in walk(g['body']))]
+            unreset = []
+            for g in growers:
+                written = {strip_member(n['l']) for n in walk(g['body']) if n.get('k') == 'binop' and n.get('op') == '=' and strip_member(n['l'])}
+                for x in reads:
+                    if x not in written:
+                        unreset.append(f'{g["name"]} does not reset {x}')
+            if not reads or unreset:
+                problems.append(f'answers `{shown}` without searching the members, from {reads or "nothing"} '
+                                f'({"; ".join(sorted(set(unreset))) or "no state of the scope is consulted"}): a name entered after that '
+                                'state was recorded is not found')
+            else:
+                ck.note(f'{inst}: a shortcut consults {reads}; ' + ('every function that enters a member resets it' if growers else 'no function enters a member after construction'))
+        for need in ('found', 'absent'):
+            if need not in kinds:
+                problems.append(f'no `{need}` outcome')
+        ck.check(R, inst, not problems, f'{f["id"]}: ' + '; '.join(problems), loc=f['loc'], fn=f['id'])
+
+
+def strip_member(n):
+    from facts import strip_casts
+    n = strip_casts(n)
+    if n.get('k') == 'member' and strip_casts(n.get('e') or n.get('base') or {}).get('k') in ('this', None):
+        return n.get('name')
+    return None
+
+
+def _subterms(t):
+    if isinstance(t, tuple):
+        yield t
+        for x in t:
+            yield from _subterms(x)
+
+
 def check_homogeneous(ck, F, S):
     """Parameter lists, enumerations, base lists, handler regions: singleton sets."""
+    check_tree_lookup(ck, F)
+    check_homogeneous_lookup(ck, F, S)
     R = ck.rule('C07.singleton-sets', 'parameters, enumerators, bases and exception parameters are their own master, their '
                 'decl-set is the singleton of themselves, and their overload set selects them exactly for their own type', floor=4)
     cases = [
@@ -294,31 +397,33 @@ def check_homogeneous(ck, F, S):
             outs = [r for r in S.run(fid) if r[1] == 'return']
         except Unsupported as e:
             raise AnalysisBroken(f'{fid}: outside the evaluator language: {e}')
-        if len(outs) != 1:
-            raise AnalysisBroken(f'{fid}: {len(outs)} paths')
-        st, _k, v = outs[0]
-        root = v[1] if v[0] == 'addr' else v
-        if inst == 'Block::new_handler':
-            # the declaration is the handler's exception parameter
-            ehs = [oid for oid, o in st.heap.items() if o.cls == 'ipr::impl::EH_parameter']
+        if not outs:
+            raise AnalysisBroken(f'{fid}: no returning path')
+        inst0 = inst
+        for pi, (st, _k, v) in enumerate(outs):
+            inst = inst0 if len(outs) == 1 else f'{inst0} [path {pi}: {contracts.render_conds(st.conds, st, {})[:90]}]'
+            root = v[1] if v[0] == 'addr' else v
+            if inst0 == 'Block::new_handler':
+                # the declaration is the handler's exception parameter
+                ehs = [oid for oid, o in st.heap.items() if o.cls == 'ipr::impl::EH_parameter']
+                names = contracts.name_paths(st, root)
+                for oid in ehs:
+                    names[oid] = 'EH'
+                acc = contracts.observe(S, F, st, root, names, accessor_filter=lambda n: n == 'exception')
+                if len(ehs) != 1 or acc.get('exception') != 'EH':
+                    ck.fail(R, inst, f'exception() of a new handler is `{acc.get("exception")}`', loc=f['loc'], fn=fid)
+                    continue
+                root = ('obj', ehs[0])
             names = contracts.name_paths(st, root)
-            for oid in ehs:
-                names[oid] = 'EH'
-            acc = contracts.observe(S, F, st, root, names, accessor_filter=lambda n: n == 'exception')
-            if len(ehs) != 1 or acc.get('exception') != 'EH':
-                ck.fail(R, inst, f'exception() of a new handler is `{acc.get("exception")}`', loc=f['loc'], fn=fid)
-                continue
-            root = ('obj', ehs[0])
-        names = contracts.name_paths(st, root)
-        acc = contracts.observe(S, F, st, root, names, accessor_filter=lambda n: n in ('master', 'decl_set'))
-        dsok = False
-        ds = acc.get('decl_set')
-        dsobj = [oid for oid, nm in names.items() if nm == ds]
-        if dsobj:
-            d = st.heap[dsobj[0]]
-            dsok = d.cls.startswith('ipr::impl::singleton_ref<') and d.fields.get('datum') == root
-        ck.check(R, inst, acc.get('master') == 'R' and dsok,
-                 f'{inst}: master()={acc.get("master")}, decl_set()={ds} (singleton of itself expected)', loc=f['loc'], fn=fid)
+            acc = contracts.observe(S, F, st, root, names, accessor_filter=lambda n: n in ('master', 'decl_set'))
+            dsok = False
+            ds = acc.get('decl_set')
+            dsobj = [oid for oid, nm in names.items() if nm == ds]
+            if dsobj:
+                d = st.heap[dsobj[0]]
+                dsok = d.cls.startswith('ipr::impl::singleton_ref<') and d.fields.get('datum') == root
+            ck.check(R, inst, acc.get('master') == 'R' and dsok,
+                     f'{inst}: master()={acc.get("master")}, decl_set()={ds} (singleton of itself expected)', loc=f['loc'], fn=fid)
     # singleton_overload::operator[]
     ops = [f for f in F.fn.values() if f['name'] == 'operator[]' and (f.get('parent') or '').startswith('ipr::impl::singleton_overload<')]
     if not ops:
